@@ -399,16 +399,28 @@ func NewEventList(events ...*Event) *EventList {
 }
 
 func FlattenEventLists(eventslist []*EventList) (*EventList, error) {
-	sort.Slice(eventslist, func(i, j int) bool {
-		return eventslist[i].Events[0].Index < eventslist[j].Events[0].Index
+	nonempty := make([]*EventList, 0, len(eventslist))
+	for _, e := range eventslist {
+		if e != nil && len(e.Events) != 0 {
+			nonempty = append(nonempty, e)
+		}
+	}
+	sort.Slice(nonempty, func(i, j int) bool {
+		return nonempty[i].Events[0].Index < nonempty[j].Events[0].Index
 	})
 	var events []*Event
 	prod := big.NewInt(1)
-	for _, e := range eventslist {
-		prod.Mul(prod, e.product)
+	for _, e := range nonempty {
+		if prod != nil && e.product != nil {
+			prod.Mul(prod, e.product)
+		} else {
+			prod = nil // not all lists carry their product: the result has none either
+		}
 		events = append(events, e.Events...)
 	}
-	return &EventList{Events: events, product: prod, verified: true}, nil
+	// The result is not marked as verified: whether the lists fit together (indices, parent hashes
+	// at the joins) is for EventList.Verify to find out.
+	return &EventList{Events: events, product: prod}, nil
 }
 
 type compressedEventList struct {
